@@ -351,6 +351,8 @@ func replayFile(o Opts, res *Result) error {
 	}
 	res.Rule = "replay"
 	os.WriteFile(o.Out+"/cases.v", []byte("From ZV Require Import Base.Prelude Model.Par Model.ParCases.\nDefinition M := Eval vm_compute in (par_mismatches []).\nPrint M.\n"), 0644)
+	res.CountN("queries_rerun_after_missing_the_deadline", slowRetries)
+	res.CountN("of_which_finished_on_the_rerun", slowRecovered)
 	res.Write(o.Out)
 	return nil
 }
@@ -421,6 +423,8 @@ func c08(o Opts) error {
 	if err := os.WriteFile(o.Out+"/cases.v", []byte(sb.String()), 0644); err != nil {
 		return err
 	}
+	res.CountN("queries_rerun_after_missing_the_deadline", slowRetries)
+	res.CountN("of_which_finished_on_the_rerun", slowRecovered)
 	res.Write(o.Out)
 	return nil
 }
